@@ -8,6 +8,7 @@ import (
 	"go/token"
 	"go/types"
 	"hash/fnv"
+	"math"
 	"strings"
 )
 
@@ -84,7 +85,7 @@ func registerIntrinsics(e *Engine) {
 			return intV(0)
 		}
 		t := e.freshVar(name, 64)
-		x, ok := e.splitInt("choice:"+name, Value{T: t}, scalarInfo{64, true, 2}, 0, n-1)
+		x, ok := e.splitInt2("choice:"+name, Value{T: t}, scalarInfo{64, true, 2}, 0, n-1, true)
 		if !ok {
 			panic(&pathAbort{"choice-out-of-range"})
 		}
@@ -179,6 +180,71 @@ func registerIntrinsics(e *Engine) {
 			vals[i] = s.arr.flat[s.off+i]
 		}
 		return Value{O: &Tuple{e: e.hashUF("fnv128a", vals, 16)}}
+	}
+	in[v("KindOf")] = func(e *Engine, a []Value, c *callCtx) Value {
+		ifc, _ := a[0].O.(*Iface)
+		if ifc == nil {
+			return intV(0)
+		}
+		si := e.scalar(ifc.t)
+		switch si.kind {
+		case 1:
+			return intV(1)
+		case 2:
+			if si.signed {
+				return intV(2)
+			}
+			return intV(3)
+		case 4:
+			return intV(4)
+		}
+		if st, ok := ifc.t.Underlying().(*types.Slice); ok && e.scalar(st.Elem()).w == 8 && e.scalar(st.Elem()).kind == 2 {
+			return intV(5)
+		}
+		return intV(0)
+	}
+	in[v("IntOf")] = func(e *Engine, a []Value, c *callCtx) Value {
+		ifc := a[0].O.(*Iface)
+		si := e.scalar(ifc.t)
+		return e.convert(ifc.v, ifc.t, types.Typ[types.Int64])
+		_ = si
+		return Value{}
+	}
+	in[v("UintOf")] = func(e *Engine, a []Value, c *callCtx) Value {
+		ifc := a[0].O.(*Iface)
+		return e.convert(ifc.v, ifc.t, types.Typ[types.Uint64])
+	}
+	in[v("StrOf")] = func(e *Engine, a []Value, c *callCtx) Value { return a[0].O.(*Iface).v }
+	in[v("BytesOf")] = func(e *Engine, a []Value, c *callCtx) Value { return a[0].O.(*Iface).v }
+	in[v("BoolOf")] = func(e *Engine, a []Value, c *callCtx) Value { return a[0].O.(*Iface).v }
+	in[v("IsNilPtr")] = func(e *Engine, a []Value, c *callCtx) Value {
+		ifc, _ := a[0].O.(*Iface)
+		if ifc == nil {
+			return boolV(true)
+		}
+		switch ifc.t.Underlying().(type) {
+		case *types.Pointer, *types.Map, *types.Slice, *types.Signature, *types.Chan:
+			return boolV(ifc.v.O == nil)
+		}
+		return boolV(false)
+	}
+	in[v("And")] = func(e *Engine, a []Value, c *callCtx) Value {
+		return scalarOfTerm(e.tt.And(e.boolTerm(a[0]), e.boolTerm(a[1])))
+	}
+	in[v("Or")] = func(e *Engine, a []Value, c *callCtx) Value {
+		return scalarOfTerm(e.tt.Or(e.boolTerm(a[0]), e.boolTerm(a[1])))
+	}
+	in[v("Implies")] = func(e *Engine, a []Value, c *callCtx) Value {
+		return scalarOfTerm(e.tt.Or(e.tt.Not(e.boolTerm(a[0])), e.boolTerm(a[1])))
+	}
+	in[v("Ite")] = func(e *Engine, a []Value, c *callCtx) Value {
+		return scalarOfTerm(e.tt.Ite(e.boolTerm(a[0]), e.term(a[1], 64), e.term(a[2], 64)))
+	}
+	in[v("IteByte")] = func(e *Engine, a []Value, c *callCtx) Value {
+		return scalarOfTerm(e.tt.Ite(e.boolTerm(a[0]), e.term(a[1], 8), e.term(a[2], 8)))
+	}
+	in[v("StrEq")] = func(e *Engine, a []Value, c *callCtx) Value {
+		return scalarOfTerm(e.strEq(a[0].str(), a[1].str()))
 	}
 	in[v("Yield")] = func(e *Engine, a []Value, c *callCtx) Value { return Value{} }
 	in[v("Logf")] = func(e *Engine, a []Value, c *callCtx) Value { return Value{} }
@@ -524,6 +590,41 @@ func registerIntrinsics(e *Engine) {
 	in["math.Float64frombits"] = func(e *Engine, a []Value, c *callCtx) Value { return a[0] }
 	in["math.Float32bits"] = func(e *Engine, a []Value, c *callCtx) Value { return a[0] }
 	in["math.Float32frombits"] = func(e *Engine, a []Value, c *callCtx) Value { return a[0] }
+
+	for name, f := range map[string]func(float64) float64{"Log": math.Log, "Exp": math.Exp, "Floor": math.Floor, "Ceil": math.Ceil,
+		"Trunc": math.Trunc, "Sqrt": math.Sqrt, "Log2": math.Log2, "Log10": math.Log10, "Exp2": math.Exp2} {
+		ff := f
+		fn := func(e *Engine, a []Value, c *callCtx) Value {
+			if a[0].T != nil {
+				e.unsupported("symbolic float in math function")
+			}
+			return floatV(ff(floatOf(a[0], 64)), 64)
+		}
+		in["math.arch"+name] = fn
+		in["math."+name] = fn
+		in["math."+strings.ToLower(name)] = fn
+	}
+
+	// ---- reflect (only type identity) ----
+	in["reflect.TypeOf"] = func(e *Engine, a []Value, c *callCtx) Value {
+		ifc, _ := a[0].O.(*Iface)
+		if ifc == nil {
+			return Value{}
+		}
+		n, _ := e.rtypes.At(ifc.t).(*Node)
+		rt := c.sig.Results().At(0).Type() // reflect.Type
+		_ = rt
+		rtypePkg := e.P.byPath["reflect"]
+		rtypeT := rtypePkg.Type("rtype").Type()
+		if n == nil {
+			save := e.epoch
+			e.epoch = 0
+			n = e.newNode(rtypeT)
+			e.epoch = save
+			e.rtypes.Set(ifc.t, n)
+		}
+		return Value{O: &Iface{t: types.NewPointer(rtypeT), v: Value{O: Ptr{n, -1}}}}
+	}
 
 	// ---- unique (netip zones) ----
 	in["unique.Make"] = func(e *Engine, a []Value, c *callCtx) Value {
